@@ -221,12 +221,16 @@ pub fn gen_vector(rng: &mut Rng, id: String, fam: &str, cont: &str, n: usize, pr
         1..=3 => cmds.push(json!(["settle_all"])),
         _ => cmds.push(json!(["settle"])),
     }
-    // after the final result: stale wakes (nobody polls again: a poll after the final result is
-    // the caller's contract violation and nothing is concluded from it, DESIGN.md 9)
+    // after the final result: stale wakes, and (where the type guards itself: an assertion, or merge's
+    // state table) one more poll - what it returns is unspecified and not judged, but it must not reach a
+    // child (C03).  race_ok's array / Vec impls have no such guard and are left alone (DESIGN.md 9).
     if !group && n > 0 && rng.chance(25) {
         cmds.push(json!(["fire", rng.below(n as u64), -1]));
         if rng.chance(30) {
             cmds.push(json!(["fire", rng.below(n as u64), 0]));
+        }
+        if matches!(fam, "join" | "try_join" | "race" | "merge" | "zip" | "chain" | "wait_until") && rng.chance(50) {
+            cmds.push(json!(["repoll"]));
         }
     }
     Vector {
